@@ -483,10 +483,11 @@ fn main() {
     type B128 = f128::BaseElement;
     if std::env::var("VERIF_STAGE").as_deref() == Ok("miri") {
         // depth <= 3 exhaustively for one hasher (the tree builders cast leaf slices with from_raw_parts)
-        drive::<Blake3_256<B64>>(&run, "Blake3_256", 3, 1);
-        drive::<Rp64_256>(&run, "Rp64_256", 2, 1);
+        // (depth 3 exhaustively means 109 600 ordered position lists: hours under Miri)
+        drive::<Blake3_256<B64>>(&run, "Blake3_256", 2, 3);
+        drive::<Rp64_256>(&run, "Rp64_256", 1, 2);
         run.finish(Finish {
-            rule: "Miri: every position subset and order for trees of depth <= 3 (Blake3_256) and <= 2 (Rp64_256), one sampled larger tree each".into(),
+            rule: "Miri: every position subset and order for trees of depth <= 2 (Blake3_256) and <= 1 (Rp64_256), a few sampled larger trees each".into(),
             assumptions: vec!["Miri without the aliasing model".into()],
             exhaustive: true,
             require: vec![],
